@@ -221,7 +221,7 @@ var expectedProbes = map[string][]string{
 	"C08": {"allocation_within_10x_of_budget"},
 	"C11": {"split_inside_character", "zero_length_chunk", "chunk_boundary_inside_character_fault_rejected"},
 	"C16": {"operation_after_a_failed_one"},
-	"C17": {"type_cache_miss_about_to_generate", "generation_finished", "thread_blocked_in_library_sync", "blocked_thread_released_later", "same_object_marshaled_by_several_threads"},
+	"C17": {"type_cache_miss_about_to_generate", "generation_finished", "same_object_marshaled_by_several_threads"},
 }
 
 func (s *PropSpec) expectedProbes() []string { return expectedProbes[prop] }
